@@ -1,7 +1,7 @@
 # irsx: path-wise symbolic executor over pre-decoded LLVM IR; z3 decides every verification condition.
 import z3, time, math, struct, itertools
 from .ir import Module, Ptr, NULL, UNDEF, sgn, Ins, T, IRError, UBSAN_KINDS, TRAP_FUNCS
-from .values import SV, SF, Bundle, IV, TRUE, FALSE, zt, zb, rng, f32, tainted
+from .values import SV, SF, Bundle, IV, TRUE, FALSE, zt, zb, rng, f32, tainted, szof, compact
 
 class EngineError(Exception): pass        # unsupported construct: run is inconclusive, never a pass
 class PathEnd(Exception):                  # this path stops (assume false, bound hit, ...)
@@ -21,10 +21,11 @@ class Obj:
         o = Obj(s.size, s.name, owner, s.kind); o.cells = dict(s.cells); o.ro = s.ro; o.bytes = s.bytes; return o
 
 class Frame:
-    __slots__ = ('fn', 'regs', 'blk', 'ip', 'prev', 'allocas')
-    def __init__(s, fn): s.fn = fn; s.regs = {}; s.blk = None; s.ip = 0; s.prev = None; s.allocas = []
+    __slots__ = ('fn', 'regs', 'blk', 'ip', 'prev', 'allocas', 'lc')
+    def __init__(s, fn): s.fn = fn; s.regs = {}; s.blk = None; s.ip = 0; s.prev = None; s.allocas = []; s.lc = None
     def clone(s):
-        f = Frame(s.fn); f.regs = dict(s.regs); f.blk = s.blk; f.ip = s.ip; f.prev = s.prev; f.allocas = list(s.allocas); return f
+        f = Frame(s.fn); f.regs = dict(s.regs); f.blk = s.blk; f.ip = s.ip; f.prev = s.prev; f.allocas = list(s.allocas)
+        f.lc = None if s.lc is None else dict(s.lc); return f
 
 _sid = itertools.count(1)
 class State:
@@ -50,7 +51,7 @@ class Engine:
                  max_paths=None, loop_cap=None, time_budget=None)
         if cfg: c.update(cfg)
         s.cfg = c
-        s.solver = z3.Solver()
+        s.solver = z3.SolverFor(c['logic']) if c.get('logic') else z3.Solver()
         s.solver.set('timeout', c['query_timeout_ms'])
         s.active = None; s.scope_depth = 0
         s.gobjs = {}            # materialised global objects (templates, owner 0)
@@ -505,7 +506,7 @@ class Engine:
             alo, ahi = (a, a) if isinstance(a, int) else (a.lo, a.hi)
             blo, bhi = (b, b) if isinstance(b, int) else (b.lo, b.hi)
             if isinstance(a, SV) and isinstance(b, SV) and a.t.eq(b.t): return a
-            return SV(z3.If(c, zt(a), zt(b)), min(alo, blo), max(ahi, bhi), taint=tainted(a, b))
+            return SV(z3.If(c, zt(a), zt(b)), min(alo, blo), max(ahi, bhi), taint=tainted(a, b), sz=szof(a) + szof(b) + 1)
         if isinstance(a, Ptr) and isinstance(b, Ptr):
             if a.obj == b.obj:
                 if isinstance(a.off, int) and isinstance(b.off, int) and a.off == b.off: return a
@@ -530,7 +531,7 @@ class Engine:
         if v.lo >= lo and v.hi <= hi: return v
         r, _ = s.query(st, z3.Or(v.t < lo, v.t > hi))
         if r == 'unsat':
-            return SV(v.t, max(v.lo, lo), min(v.hi, hi), taint=v.taint)
+            return SV(v.t, max(v.lo, lo), min(v.hi, hi), taint=v.taint, sz=v.sz)
         m = 1 << w
         return SV(((v.t + (1 << (w - 1))) % m) - (1 << (w - 1)), lo, hi, taint=v.taint)
     def tounsigned(s, v, w):
@@ -568,8 +569,9 @@ class Engine:
         fr.prev = prev; fr.blk = blk; fr.ip = blk.nphi
         lc = s.cfg['loop_cap']
         if lc:
-            k = (fr.fn.name, target); n = st.loopcnt.get(k, 0) + 1; st.loopcnt[k] = n
-            if n > lc: s.bound_hit(st, 'loop cap %d at %s:%s' % (lc, fr.fn.name, target))
+            if fr.lc is None: fr.lc = {}
+            n = fr.lc.get(target, 0) + 1; fr.lc[target] = n
+            if n > lc: s.bound_hit(st, 'loop cap %d (iterations of one loop in one activation) at %s:%s' % (lc, fr.fn.name, target))
     def branch(s, st, cond):
         """decide a symbolic condition (z3 Bool): returns python bool, forking when both sides are feasible"""
         if z3.is_true(cond): return True
@@ -594,12 +596,13 @@ class Engine:
     def add_pc_implied(s, st, c):
         st.pc.append(c)     # implied by the current constraints: recorded for merges/dumps, solver not burdened
     def exec(s, st):
-        H = s.H; maxs = s.cfg['max_steps']
+        H = s.H; maxs = s.cfg['max_steps']; tb = s.cfg['time_budget']
         while True:
             fr = st.frames[-1]
             ins = fr.blk.ins[fr.ip]
             st.steps += 1
             if st.steps > maxs: s.bound_hit(st, 'step budget %d' % maxs)
+            if not (st.steps & 1023) and tb and time.time() - s.t0 > tb: s.bound_hit(st, 'exploration budget (path cut)')
             H[ins.op](st, fr, ins)
 
     # ---- terminators
